@@ -155,3 +155,10 @@ Proof.
     pose proof (Z.div_mod x (2 ^ lo)). pose proof (Z.div_mod (x / 2 ^ lo) (2 ^ w)). nia. }
   exact (set_field_range_aux _ _ _ _ _ _ _ _ HP HW A1 A2 A3 Hv A4).
 Qed.
+
+(* x & !0xf on u64: clear the low four bits *)
+Lemma align16 x : 0 <= x < 2 ^ 64 -> Z.land x (wnot U64 15) = x - x mod 16.
+Proof.
+  intros Hx. change (wnot U64 15) with (Z.ldiff (Z.ones 64) (Z.ones 4)).
+  rewrite land_ldiff_ones by lia. rewrite ldiff_sub. rewrite Z.land_ones by lia. reflexivity.
+Qed.
